@@ -6,6 +6,8 @@ import (
 	"encoding/json"
 	"fmt"
 	"io"
+	"os"
+	"os/exec"
 	"strings"
 	"time"
 
@@ -170,6 +172,7 @@ var readable = []formats.Format{formats.SPDX23JSON, formats.CDX13JSON, formats.C
 func Run(c *engine.Ctx) {
 	rw.SilenceStdout()
 	positive(c)
+	historyPairs(c)
 	declarationCube(c)
 	headers(c)
 	tokens(c)
@@ -255,6 +258,98 @@ func positive(c *engine.Ctx) {
 			}
 		})
 	}
+}
+
+// historyPairs: every ordered pair (and triple, thorough) of representative inputs is sniffed back to back; the result
+// for the last input must equal the result it gets when it is the first thing sniffed in a fresh process.
+func historyInputs() []string {
+	spdx, _ := rw.Write(histDoc(), formats.SPDX23JSON, 2)
+	c14, _ := rw.Write(histDoc(), formats.CDX14JSON, 0)
+	c15, _ := rw.Write(histDoc(), formats.CDX15JSON, 0)
+	return []string{
+		string(spdx), string(c14), string(c15),
+		`{"bomFormat":"CycloneDX","specVersion":1.5}`, `{"spdxVersion":"SPDX-2.3","bomFormat":7}`, `{"bomFormat":"CycloneDX","specVersion":"1.3","spdxVersion":2}`,
+		`{"spdxVersion":"SPDX-2.2","specVersion":["1.4"]}`, `{"specVersion":"1.4"}`, `{"bomFormat":"CycloneDX"}`, `{}`, `[]`, `{"spdxVersion":"SPDX-2.3"`, "",
+		"SPDXVersion: SPDX-2.3\n", "SPDXVersion: SPDX-2.1\n\"SPDX-2.2\"\n", "\"SPDX-2.3\"\n", "SPDXVersion:\n", "garbage\n",
+		`{"spdxVersion":"SPDX-2.4"}`, `{"bomFormat":"CycloneDX","specVersion":"1.6"}`,
+	}
+}
+
+func histDoc() *sbom.Document {
+	d := sbom.NewDocument()
+	d.Metadata.Id = "urn:uuid:3e671687-395b-41f5-a30f-a58921a69b79"
+	d.NodeList.Nodes = []*sbom.Node{{Id: "a", Name: "na"}}
+	d.NodeList.RootElements = []string{"a"}
+	return d
+}
+
+func sniffKey(in string) string {
+	f, err := rw.Sniff(strings.NewReader(in))
+	return fmt.Sprintf("%s|%v", f, err != nil)
+}
+
+// Aux prints the detection result of history input #n as the first call of a fresh process.
+func Aux(args []string) int {
+	rw.SilenceStdout()
+	var n int
+	fmt.Sscan(args[0], &n)
+	fmt.Fprint(os.Stderr, sniffKey(historyInputs()[n]))
+	return 0
+}
+
+func historyPairs(c *engine.Ctx) {
+	c.Group("history")
+	ins := historyInputs()
+	depth := 2
+	if c.Thorough() {
+		depth = 3
+	}
+	c.Bound("history", fmt.Sprintf("all sequences of %d detections over %d representative inputs (writer outputs, wrongly typed / partial / near-miss declarations, truncated JSON, tag-value variants, garbage); last result = result as first call of a fresh process", depth, len(ins)))
+	refs := map[int]string{}
+	self, _ := os.Executable()
+	var rec func(seq []int)
+	rec = func(seq []int) {
+		if len(seq) == depth {
+			s := append([]int{}, seq...)
+			c.Case(func() any {
+				var l []string
+				for _, i := range s {
+					x := ins[i]
+					if len(x) > 60 {
+						x = x[:60] + "…"
+					}
+					l = append(l, x)
+				}
+				return l
+			}, func(t *engine.T) *engine.Violation {
+				last := s[len(s)-1]
+				if _, ok := refs[last]; !ok {
+					out, err := exec.Command(self, "--aux", "c06ref", fmt.Sprint(last)).CombinedOutput()
+					if err != nil {
+						return engine.Violate("harness", "", "reference process failed: %v %s", err, out)
+					}
+					refs[last] = string(out)
+				}
+				var got string
+				for _, i := range s {
+					got = sniffKey(ins[i])
+					t.Transitions(1)
+				}
+				t.Validated(1)
+				if got != refs[last] {
+					return engine.Violate("history-dependent", "", "after sniffing %d other input(s) detection of input #%d gives %q; as first call of a fresh process it gives %q", len(s)-1, last, got, refs[last])
+				}
+				t.State(fmt.Sprint("hist", s))
+				t.Outcome("history-ok")
+				return nil
+			})
+			return
+		}
+		for i := range ins {
+			rec(append(seq, i))
+		}
+	}
+	rec(nil)
 }
 
 type lay struct{ name, text string }
